@@ -70,6 +70,10 @@ def run_progress_mc(ctx, name, stakes, byz, crashed, noisy, steps, w, maxslot, t
 
 def run(ctx):
     ctx.build_harness()
+    # component level: a correct leader's block closes its slices and completes at the specified step, with the
+    # READY parent as its effective parent, whenever ParentReady arrives relative to slice production
+    from .. import producer as PR
+    PR.run_model(ctx, "producer", relevant=PR.relevant_c02)
     # 0. design level (AlpenglowAbs + leaders + asynchronous prefix, then timely network): progress for EVERY schedule
     run_progress_mc(ctx, "prog6_silent", [1] * 6, [5], [1], False, 4, 2, 5,
                     witnesses=["W_Judged", "W_GoalReached", "W_SkippedWindow"])
